@@ -55,6 +55,22 @@ def run(prog):
                 if len(lit) == 1 and len(w) == 1 and (any(mir.is_call(x, "next") or "prime" in show(x).lower() for x in mir.subterms(w[0]))
                                                       or _mentions_param(w[0]) or "u128" in (k.locals[0]["s"] if k.locals else "")):
                     pairs.append((k, w[0]))
+        # pairing by `zip`: `clause.iter().copied().zip(primes.by_ref())` draws one fresh item of the shared generator per
+        # literal occurrence, exactly like `next()` in a map closure
+        zips = 0
+        for k in [fn] + descend(prog, fn):
+            for cs in k.terms.calls:
+                if cs.callee.name != "zip" or len(cs.args) != 2:
+                    continue
+                g_ = strip(cs.args[1])
+                while mir.is_call(g_, "by_ref") or (isinstance(g_, tuple) and g_ and g_[0] in ("ref", "deref", "mutref")) and len(g_) > 1 and isinstance(g_[1], tuple):
+                    g_ = strip(g_[2][0] if g_[0] == "call" else g_[1])
+                if isinstance(g_, tuple) and g_ and g_[0] == "upvar" and ("prime" in str(g_[1]).lower() or gens):
+                    zips += 1
+        if not pairs and zips:
+            out.append(inst("PR", "%s:fresh-primes" % path, VIOLATION if errs else OK, fn, None,
+                            "; ".join(errs) if errs else "one generator, zipped with the literal occurrences (%d site)" % zips))
+            continue
         if not pairs:
             errs.append("?no (weight, literal) pair construction found for `%s`" % what)
         for k, w in pairs:
